@@ -13,6 +13,7 @@ import (
 	"verifharness/gen"
 	"verifharness/mc"
 	"verifharness/props/reg"
+	"verifharness/sched"
 )
 
 func init() { reg.Register(&reg.Prop{ID: "C06", Run: Run, Replay: Replay}) }
@@ -349,6 +350,7 @@ func checkSat(scen string, in SatIn, nValid bool) *mc.Violation {
 var validVersions = append(gen.AuditIntStrings(0, 1<<62, 6), "0", "1", "1.0", "1.00", "1.0-0", "1.0-1", "0:1.0", "1:0", "1:1.0-1", "1.0~rc1", "1.0+b1", "1.0a", "1.0.", "1.0-1~", "1.0-1+b1",
 	"9", "10", "09", "1.9", "1.10", "2", "2.0-1", "1.0~", "1.0~~", "1a", "1+", "1.", "1-0", "1-1", "2:0", "1.0-a", "1.0-1.1", "1.2.3", "1.2.10",
 	"99999999999999999999", "100000000000000000000", "0.0", "0~", "1:1", "1.0-00")
+
 // zeroV stands for the zero version.Version{} as V (a value every caller can build; Compare orders it below every parsed one)
 const zeroV = "<zero Version>"
 
@@ -573,6 +575,9 @@ func Run(r *mc.Run) {
 		return true
 	})
 
+	// the same functions called at the same time: every schedule of small thread programs (instrumented build)
+	sched.Explore(r, "concurrent-calls", ConcurrentPrograms())
+
 	// 4: SatisfiedBy
 	ops := []string{"<<", "<=", "=", ">=", ">>", "", "<", ">", "==", "!=", "=>", "=<"}
 	asV := append(append([]string{}, validVersions...), zeroV)
@@ -608,6 +613,9 @@ func Run(r *mc.Run) {
 }
 
 func Replay(scenario string, raw json.RawMessage) []*mc.Violation {
+	if scenario == "concurrent-calls" {
+		return sched.Replay(scenario, ConcurrentPrograms(), raw)
+	}
 	switch scenario {
 	case "archset-matches":
 		var in SetIn
